@@ -4,7 +4,8 @@
 (*   maxc, maxv       bounds on the numbers of constraints / variables ever created                                  *)
 (*   minc             constraints created before anything else                                                      *)
 (*   len              number of operations generated after the base history (the last one is always a solve)         *)
-(*   cbounds, vbounds, pens, ws (weights in halves), lims, caps        parameter alphabets (sequences of integers)    *)
+(*   cbounds, vbounds, pens, ws (weights in halves), lims, caps, pols (1 SHARED / 0 FATPIPE)                         *)
+(*                    parameter alphabets (sequences of integers; -simulate draws from them with repetitions)        *)
 (*   late             1: expand may also be applied to a variable that already went through a solve                  *)
 (*   ff               sequence of k for FastForward (empty: never)                                                   *)
 (*   bases            sequence of base histories (sequences of [op, a, b, c]); the exploration starts after one of   *)
@@ -64,7 +65,7 @@ Pending == { v \in Vars(s) : s.young[v] /\ Len(s.el[v]) = 0 }
 Free    == More /\ ~NeedC /\ Pending = {}
 Used(c) == \E v \in Vars(s) : OnC(s, v, c)
 NCnew   == More /\ Pending = {} /\ Len(s.cb) < Params.maxc /\
-           \E b \in CBounds \ {0} : \E p \in {0, 1} : \E l \in Lims : Do(O("cnew", b, p, l))
+           \E b \in CBounds \ {0} : \E p \in ToSet(Params.pols) : \E l \in Lims : Do(O("cnew", b, p, l))
 NVnew   == Free /\ Len(s.alive) < Params.maxv /\
            \E p \in Pens : \E b \in VBounds : \E n \in Caps : Do(O("vnew", p, b, n))
 NExpand == More /\ ~NeedC /\ \E c \in Cons(s) : \E v \in Vars(s) : \E w \in Ws :
@@ -84,19 +85,21 @@ Spec == Init /\ [][Next]_vars
 \* -simulate picks one disjunct uniformly, then one of its successors uniformly.  The mix of operations is set here, and
 \* the parameters are drawn with RandomElement (one successor per disjunct instead of all of them: 20x faster).
 Pick(S) == IF S = {} THEN {} ELSE {RandomElement(S)}
+PickQ(q) == IF Len(q) = 0 THEN {} ELSE {q[RandomElement(1..Len(q))]}      \* a repeated entry of a parameter list weighs more
 RCnew   == More /\ Pending = {} /\ Len(s.cb) < Params.maxc /\
-           \E b \in Pick(CBounds \ {0}) : \E p \in Pick({0, 1, 1}) : \E l \in Pick(Lims) : Do(O("cnew", b, p, l))
+           \E b \in PickQ(Params.cbounds) : \E p \in PickQ(Params.pols) : \E l \in PickQ(Params.lims) :
+              b # 0 /\ Do(O("cnew", b, p, l))
 RVnew   == Free /\ Len(s.alive) < Params.maxv /\
-           \E p \in Pick(Pens) : \E b \in Pick(VBounds) : \E n \in Pick(Caps) : Do(O("vnew", p, b, n))
+           \E p \in PickQ(Params.pens) : \E b \in PickQ(Params.vbounds) : \E n \in PickQ(Params.caps) : Do(O("vnew", p, b, n))
 RExpand == More /\ ~NeedC /\
            \E v \in Pick(IF Pending # {} THEN Pending ELSE { x \in Vars(s) : s.young[x] \/ Params.late = 1 }) :
            \E c \in Pick({ x \in Cons(s) : OnC(s, v, x) \/ Len(s.el[v]) < s.cap[v] }) :
-           \E w \in Pick({ x \in Ws : W(s, v, c) + x <= MaxW }) : Do(O("expand", c, v, w))
+           \E w \in PickQ(Params.ws) : W(s, v, c) + w <= MaxW /\ Do(O("expand", c, v, w))
 RFree   == Free /\ \E v \in Pick(Vars(s)) : Do(O("free", v, 0, 0))
-RVbound == Free /\ \E v \in Pick(Vars(s)) : \E b \in Pick(VBounds \ {s.vb[v]}) : Do(O("vbound", v, b, 0))
-RVpen   == Free /\ \E v \in Pick(Vars(s)) : \E p \in Pick({ x \in Pens : x # s.pen[v] \/ s.stg[v] > 0 }) : Do(O("vpen", v, p, 0))
-RCbound == Free /\ \E c \in Pick({ x \in Cons(s) : Used(x) }) : \E b \in Pick(CBounds \ {s.cb[c]}) : Do(O("cbound", c, b, 0))
-RFf     == Free /\ Len(s.alive) > 0 /\ \E k \in Pick(FFs) : Do(O("ff", k, 0, 0))
+RVbound == Free /\ \E v \in Pick(Vars(s)) : \E b \in PickQ(Params.vbounds) : b # s.vb[v] /\ Do(O("vbound", v, b, 0))
+RVpen   == Free /\ \E v \in Pick(Vars(s)) : \E p \in PickQ(Params.pens) : (p # s.pen[v] \/ s.stg[v] > 0) /\ Do(O("vpen", v, p, 0))
+RCbound == Free /\ \E c \in Pick({ x \in Cons(s) : Used(x) }) : \E b \in PickQ(Params.cbounds) : b # s.cb[c] /\ Do(O("cbound", c, b, 0))
+RFf     == Free /\ Len(s.alive) > 0 /\ \E k \in PickQ(Params.ff) : Do(O("ff", k, 0, 0))
 RExpand2 == RExpand
 RExpand3 == RExpand
 RVpen2   == RVpen
